@@ -282,16 +282,16 @@ func run(c *eng.Ctx, mem bool) error {
 		}
 		ev := func(name string, kv ...any) { c.W.Ev(name, obs(kv)...) }
 		var handles []handle
-		nextH := 0
 		addH := func(f rw) int {
-			nextH++
-			handles = append(handles, handle{nextH, f})
-			if len(handles) > 6 { // forget the oldest; the model forgets it too (HDrop)
+			if len(handles) == 6 { // slots are reused: forget the oldest handle; the model forgets it too (HDrop)
 				old := handles[0]
 				handles = handles[1:]
 				ev("HDrop", "h", old.id)
+				handles = append(handles, handle{old.id, f})
+				return old.id
 			}
-			return nextH
+			handles = append(handles, handle{len(handles) + 1, f})
+			return len(handles)
 		}
 		steps := 40 + rng.Intn(40)
 		for i := 0; i < steps; i++ {
